@@ -707,25 +707,70 @@ End MuxP.
 
 (* ------------------------------------------------------------------ encoders are total *)
 
-(* the values the property lists; for the two SQL formats an integer must fit SQLite's
-   64-bit INTEGER (finding K9 is about the ones that do not) *)
+Lemma et_app a b : encodable_text (a ++ b) = encodable_text a && encodable_text b.
+Proof. unfold encodable_text. apply forallb_app. Qed.
+
+Lemma et_uint u : encodable_text (uint_text u) = true.
+Proof.
+  unfold encodable_text.
+  induction u; cbn [uint_text forallb]; rewrite ?IHu; reflexivity.
+Qed.
+
+Lemma et_dec z : encodable_text (dec_text z) = true.
+Proof.
+  unfold dec_text. destruct (Z.to_int z) as [u|u].
+  - apply et_uint.
+  - change (encodable_text ([45] ++ uint_text u) = true). rewrite et_app, et_uint. reflexivity.
+Qed.
+
+Lemma et_pad n z : encodable_text (pad n z) = true.
+Proof.
+  unfold pad, pad_to. rewrite et_app, et_dec, andb_true_r.
+  unfold encodable_text. induction (n - length (dec_text z))%nat as [|k IH]; cbn [repeat forallb]; [reflexivity|].
+  rewrite IH. reflexivity.
+Qed.
+
+Lemma et_string s : encodable_text (text_of_string s) = true.
+Proof.
+  unfold encodable_text. induction s as [|a s IH]; cbn [text_of_string forallb]; [reflexivity|].
+  rewrite IH, andb_true_r. unfold is_surrogate.
+  pose proof (Ascii.N_ascii_bounded a) as B.
+  replace (55296 <=? Z.of_N (N_of_ascii a)) with false; [reflexivity|].
+  symmetry. apply Z.leb_gt. lia.
+Qed.
+
+Lemma et_offset off : encodable_text (iso_offset off) = true.
+Proof.
+  unfold iso_offset. destruct off as [o|]; [|reflexivity].
+  rewrite !et_app, !et_pad. destruct (o <? 0); reflexivity.
+Qed.
+
+Lemma et_fmt_dt y m d hh mi ss off : encodable_text (fmt_dt_seconds y m d hh mi ss off) = true.
+Proof.
+  unfold fmt_dt_seconds, iso_date, iso_time. rewrite !et_app, !et_pad, et_offset. reflexivity.
+Qed.
+
+(* the values the property lists.  Excluded, because the database / the text file refuses them
+   (finding K9 is about what happens then): for the two SQL formats an integer outside SQLite's
+   64-bit INTEGER; for every format except JSON a string holding a lone surrogate *)
 Definition encodable (f : fmt) (v : value) : bool :=
   match v with
   | VOther => false
   | VInt z => match f with FDb | FSql => int64 z | _ => true end
   | VRef _ i => match f with FDb | FSql => int64 i | _ => true end
-  | VDec _ => true
+  | VStr s | VDec s => match f with FJson => true | _ => encodable_text s end
   | _ => true
   end.
 
 Theorem encode_total f v : encodable f v = true -> exists c, encode f false v = Ok c.
 Proof.
-  intros H. destruct f, v; try discriminate H;
+  intros H. destruct f, v; try discriminate H; cbn [encodable] in H;
     try (eexists; reflexivity);
     try (destruct b; eexists; reflexivity);
     try (unfold encode; cbn [cleanup flatten type_of encoders enc_get enc_set base_encoders
-                              vtype_eqb enc_int enc_noop bind render];
-         cbn [encodable] in H; rewrite H; eexists; reflexivity).
+                              vtype_eqb enc_int enc_noop enc_str enc_format_datetime py_str bind render];
+         unfold utf8_text;
+         rewrite ?H, ?et_fmt_dt, ?et_app, ?et_string, ?et_dec; eexists; reflexivity).
 Qed.
 
 (* ------------------------------------------------------------------ application layer *)
@@ -856,7 +901,7 @@ Qed.
 Definition k9_env : env := mkEnv (infer [mkT "A" ["big"%string] false]) 1000 10000.
 Definition k9_rows : list (string * row) :=
   [("A"%string, [("id"%string, VInt 1); ("big"%string, VInt 5)]);
-   ("A"%string, [("id"%string, VInt 2); ("big"%string, VInt (2 ^ 70))]);
+   ("A"%string, [("id"%string, VInt 2); ("big"%string, VStr [55296])]);
    ("A"%string, [("id"%string, VInt 3); ("big"%string, VInt 5)])].
 
 Lemma k9_env_ok : env_ok k9_env.
@@ -868,8 +913,9 @@ Proof.
   - lia.
 Qed.
 
-(* three rows, one holding 2**70, database output: the run reports success, the database is
-   empty; with a JSON file and an SQL script next to it those are never closed *)
+(* three rows, one holding the string "\ud800" (a lone surrogate), database output: the run
+   reports success, the database is empty; with a JSON file and an SQL script next to it those
+   are never closed *)
 Theorem success_means_lossless_refuted :
   exists e rows st ss,
     env_ok e /\
